@@ -87,6 +87,12 @@ check("C11", "exploration",
   "Hook: zz_verif_paths.go (build tag verif, injected by overlay) exposes the unexported path counters. Page boundaries and row-group partitioning below the maximum are not compared; the return value of WriteRowGroup is not specified by the property and not checked.",
   "DESIGN.md §2 C11")
 
+check("C12", "exploration",
+  "bounded exhaustive enumeration of source struct type x every single (thorough: double) schema edit at every position of the type tree x row alphabet x 5 conversion paths, with Go types built by reflect.StructOf and a projection reference model on Go values",
+  "6 source types (flat, groups, pointer groups, lists of structs, required leaves under two optional or repeated ancestors, LIST-tagged) are edited by deleting a field, swapping adjacent fields, or adding an optional leaf / required leaf / string / optional group / list at the first and last position of EVERY struct of the tree; all boundary-value alphabet rows are written with the source type and read through the target type via NewReader(schema), GenericReader[any](schema), ConvertRowGroup, CopyRows and MergeRowGroups(schema). Every row must equal the projection of the source row (shared fields identical incl. nesting and nil-ness, added fields zero/nil), same count and order.",
+  "Only compatible targets are generated, so the 'incompatible targets are rejected' clause is not exercised; known finding: MergeRowGroups with a schema that adds columns under optional/repeated groups (5 listed classes).",
+  "DESIGN.md §2 C12")
+
 NOT_YET = "check not built yet in this round (design in DESIGN.md §2); not claimed until its check exists"
 
 m = {
